@@ -1,5 +1,269 @@
-import XlVerif.Base
-/-! Driver for C12 (stub: replaced when the property's model is built). -/
+import XlVerif.Model.C12
+import XlVerif.Spec.C12
+/-!
+  Driver for C12.
+
+  `C12 CODEC <T:file name>`
+      → `impl=<writer opener>,<reader opener>  spec=<gzip|plain>  ext=<T:model's extension>  specext=<T:…>`
+  `C12 RT <T:file name> <build_code 0|1> <all|strict> <maxDepth> <graph>`
+      → `impl=<observable of the modelled restored model | X:Crash>  spec=<observable of the original>
+         persistable=<0|1>  enc=<0|1>  depth=<n>  kf=<D1201|>`
+  The graph is the object graph of the model's four dicts in prefix form (see harness/props/c12.py).
+-/
 namespace XlVerif.Drv.C12
-def handle (_fields : List String) : String := "error=not-implemented"
+open XlVerif XlVerif.Model.C12
+
+def txt (s : String) : Option Text := parseText? s
+
+/-- one token `S<code points>` -/
+def tokText (t : String) : Option Text :=
+  if t.startsWith "S" then txt (t.drop 1).toString else none
+
+def tokCount (t : String) : Option Nat := (t.drop 1).toString.toNat?
+
+mutual
+partial def parsePy : List String → Option (Py × List String)
+  | [] => none
+  | t :: rest =>
+    if t == "N" then some (.none, rest)
+    else if t == "B1" then some (.bool true, rest)
+    else if t == "B0" then some (.bool false, rest)
+    else if t == "Fz" then some (.float .negZero, rest)
+    else if t == "Fn" then some (.float .nan, rest)
+    else if t == "Fp" then some (.float .posInf, rest)
+    else if t == "Fm" then some (.float .negInf, rest)
+    else if t.startsWith "I" then (parseInt? (t.drop 1).toString).map fun z => (.int z, rest)
+    else if t.startsWith "F" then (parseRat? (t.drop 1).toString).map fun q => (.float (.fin q), rest)
+    else if t.startsWith "S" then (tokText t).map fun s => (.str s, rest)
+    else if t.startsWith "L" then do
+      let n ← tokCount t
+      let (xs, r) ← parseMany n rest
+      pure (.list xs, r)
+    else if t.startsWith "U" then do
+      let n ← tokCount t
+      let (xs, r) ← parseMany n rest
+      pure (.tuple xs, r)
+    else if t.startsWith "E" then do
+      let n ← tokCount t
+      let (xs, r) ← parseMany n rest
+      pure (.set xs, r)
+    else if t.startsWith "D" then do
+      let n ← tokCount t
+      let (kvs, r) ← parsePairs n rest
+      pure (.dict kvs, r)
+    else if t.startsWith "O" then do
+      let n ← tokCount t
+      match rest with
+      | c :: rest' =>
+        let cls ← tokText c
+        let (kvs, r) ← parsePairs n rest'
+        pure (.obj cls kvs, r)
+      | [] => none
+    else if t.startsWith "X" then do
+      let n ← tokCount t
+      match rest with
+      | c :: rest' =>
+        let cls ← tokText c
+        let (xs, r) ← parseMany n rest'
+        pure (.slots cls xs, r)
+      | [] => none
+    else if t.startsWith "R" then do
+      match (t.drop 1).toString.splitOn "." with
+      | [a, b] =>
+        let n ← a.toNat?
+        let k ← b.toNat?
+        match rest with
+        | c :: rest' =>
+          let cls ← tokText c
+          let (xs, r) ← parseMany n rest'
+          let (st, r') ← parsePairs k r
+          pure (.reduce cls xs st, r')
+        | [] => none
+      | _ => none
+    else if t == "Y" then
+      match rest with
+      | c :: p :: rest' => do
+        let cls ← tokText c
+        let pl ← tokText p
+        pure (.lib cls pl, rest')
+      | _ => none
+    else if t == "C" then
+      match rest with
+      | c :: rest' => (tokText c).map fun cls => (.cls cls, rest')
+      | _ => none
+    else if t.startsWith "A" then do
+      let n ← tokCount t
+      let (xs, r) ← parseTexts n rest
+      pure (.alias xs, r)
+    else none
+partial def parseMany : Nat → List String → Option (List Py × List String)
+  | 0, ts => some ([], ts)
+  | n + 1, ts => do
+    let (x, r) ← parsePy ts
+    let (xs, r') ← parseMany n r
+    pure (x :: xs, r')
+partial def parsePairs : Nat → List String → Option (List (Text × Py) × List String)
+  | 0, ts => some ([], ts)
+  | n + 1, ts =>
+    match ts with
+    | k :: r => do
+      let key ← tokText k
+      let (v, r') ← parsePy r
+      let (kvs, r'') ← parsePairs n r'
+      pure ((key, v) :: kvs, r'')
+    | [] => none
+partial def parseTexts : Nat → List String → Option (List Text × List String)
+  | 0, ts => some ([], ts)
+  | n + 1, ts =>
+    match ts with
+    | k :: r => do
+      let key ← tokText k
+      let (ks, r') ← parseTexts n r
+      pure (key :: ks, r')
+    | [] => none
+end
+
+/-! ### canonical text of values and of the observable (twin of `valkey` / `obs_wire` in c12.py) -/
+
+def dotted (s : Text) : String := textWire s
+
+def lastName (c : Text) : String :=
+  String.ofList ((c.reverse.takeWhile (· != '.')).reverse)
+
+def errorWire (code : Text) : String :=
+  match [Code.null, .div0, .value, .ref, .name, .num, .na].find? (fun c => c.text == code) with
+  | some c => "E:" ++ c.wire
+  | none => "E:OTHER"
+
+def fltWire : Flt → String
+  | .fin q => "F:" ++ ratWire q
+  | .negZero => "F:0/1(-0)"
+  | .nan => "N:nan"
+  | .posInf => "N:+inf"
+  | .negInf => "N:-inf"
+
+def canonVal : Py → String
+  | .none => "Z"
+  | .bool b => if b then "B:1" else "B:0"
+  | .int z => s!"I:{z}"
+  | .float f => fltWire f
+  | .str s => "T:" ++ dotted s
+  | .slots _ [p] => canonVal p
+  | .slots c _ => "X:unknown-" ++ lastName c
+  | .reduce _ _ st =>
+      (match lookup fValue st with
+       | some (.str code) => errorWire code
+       | _ => "E:OTHER")
+  | .lib _ p => String.ofList p
+  | .dict _ => "X:unknown-dict"
+  | .list _ => "X:unknown-list"
+  | .tuple _ => "X:unknown-tuple"
+  | .set _ => "X:unknown-set"
+  | .obj c _ => "X:unknown-" ++ lastName c
+  | .cls _ => "X:unknown-type"
+  | .alias _ => "X:alias"
+
+def optVal : Option Py → String
+  | some v => canonVal v
+  | none => "?"
+
+def rowWire : Py → Option String
+  | .list cells =>
+      (cells.mapM fun (c : Py) => match c with | Py.str s => some (dotted s) | _ => none).map ("+".intercalate ·)
+  | _ => none
+
+def matrixWire : Option Py → String
+  | some (.list rows) =>
+      (match rows.mapM rowWire with
+       | some rs => "[" ++ "/".intercalate rs ++ "]"
+       | none => "?")
+  | _ => "?"
+
+def cellWire (e : Text × (Option Text × Option Py × Option Py × Option (Option Py))) : String :=
+  let (k, cls, addr, val, f) := e
+  let kind := match cls with
+    | some c => if c = clsCell then "c" else "?" ++ lastName c
+    | none => "-"
+  let ftext := match f with
+    | none => "!"
+    | some t => optVal t
+  "~".intercalate [dotted k, kind, optVal addr, optVal val, ftext]
+
+def nameWire (e : Text × NameTarget) : String :=
+  match e with
+  | (k, .cell a) => "~".intercalate [dotted k, "c", optVal a]
+  | (k, .range a mx) => "~".intercalate [dotted k, "r", optVal a, matrixWire mx]
+  | (k, .other) => "~".intercalate [dotted k, "?"]
+
+def obsWire (o : Observable) : String :=
+  "|".intercalate [
+    ";".intercalate (o.cells.map cellWire),
+    ";".intercalate (o.formulae.map fun (k, f) =>
+      dotted k ++ "~" ++ (match f with | some t => optVal t | none => "?")),
+    ";".intercalate (o.names.map nameWire),
+    ";".intercalate (o.ranges.map fun (k, r) =>
+      match r with
+      | some (a, mx) => "~".intercalate [dotted k, optVal a, matrixWire mx]
+      | none => dotted k ++ "~?")]
+
+def lowerAscii (s : Text) : Text := s.map lowerChar
+
+def openerWire : Opener → String
+  | .gzip => "gzip"
+  | .plain => "plain"
+
+def strictImportable (c : Text) : Bool :=
+  !("xlcalculator.xltypes.".toList.isPrefixOf c || "xlcalculator.tokenizer.".toList.isPrefixOf c)
+
+def modelOf (g : Py) : Option PModel :=
+  match g with
+  | .dict kvs => do
+    let c ← lookup kCells kvs
+    let d ← lookup kDefinedNames kvs
+    let f ← lookup kFormulae kvs
+    let r ← lookup kRanges kvs
+    pure ⟨c, d, f, r⟩
+  | _ => none
+
+def rootItems (m : PModel) : List (Text × Py) :=
+  [(kCells, m.cells), (kDefinedNames, m.definedNames), (kFormulae, m.formulae), (kRanges, m.ranges)]
+
+def handle (fields : List String) : String :=
+  match fields with
+  | ["CODEC", f] =>
+    (match S.ofWire? f with
+     | some (.text fname) =>
+       let w := writerTest.opener lowerAscii fname
+       let r := readerTest.opener lowerAscii fname
+       kv [("impl", openerWire w ++ "," ++ openerWire r),
+           ("spec", if Spec.C12.isGzipName lowerAscii fname then "gzip" else "plain"),
+           ("ext", "T:" ++ dotted (splitext fname).2),
+           ("specext", "T:" ++ dotted (Spec.C12.extOf fname))]
+     | _ => "error=bad-name")
+  | ["RT", f, bc, mode, md, graph] =>
+    (match S.ofWire? f, md.toNat?, parsePy (graph.splitOn " ") with
+     | some (.text fname), some maxDepth, some (g, []) =>
+       (match modelOf g with
+        | none => "error=not-a-model"
+        | some m =>
+          let imp : Text → Bool := if mode == "strict" then strictImportable else fun _ => true
+          let cfg := Cfg.current imp maxDepth
+          let parse : Text → Names → Py := fun _ _ => .none
+          let sm := if cfg.persistsAst then m else clearAst m
+          let e := encF cfg (rootItems sm)
+          let dp := depthF (rootItems sm) + 1
+          let impl :=
+            match persist cfg lowerAscii m fname with
+            | .error c => "X:" ++ c.wire
+            | .ok file =>
+              match construct cfg lowerAscii parse file fname (bc == "1") with
+              | .error c => "X:" ++ c.wire
+              | .ok r => obsWire (observe r)
+          kv [("impl", impl), ("spec", obsWire (observe m)),
+              ("persistable", if e && dp ≤ maxDepth then "1" else "0"),
+              ("enc", if e then "1" else "0"), ("depth", toString dp),
+              ("kf", if dp > maxDepth then "D1201" else "")])
+     | _, _, _ => "error=bad-request")
+  | _ => "error=unknown-request"
+
 end XlVerif.Drv.C12
